@@ -23,6 +23,7 @@ var registry = map[string]entry{
 	"C01": {"route", "exploration", route.RunC01, route.Replay},
 	"C02": {"route", "exploration", route.RunC02, route.Replay},
 	"C12": {"stress", "exploration", stress.RunC12, nil},
+	"C13": {"stress", "exploration", stress.RunC13, nil},
 	"C16": {"route", "exploration", route.RunC16, route.ReplayC16},
 	"C17": {"codec", "exploration", codec.Run, codec.Replay},
 	"C19": {"route", "exploration", route.RunC19, route.ReplayC19},
